@@ -242,6 +242,11 @@ impl Prop for C09 {
             let p1 = format!("{pool} {{ T }} ::= SEQUENCE {{ v T, n INTEGER }}");
             push("parameterized", format!("parameterized|names={pool}|form=inline-constructed-arg"), vec![p1.clone(), format!("Mid ::= {pool} {{ SEQUENCE {{ a BOOLEAN }} }}")], vec!["Mid ::= SEQUENCE { v SEQUENCE { a BOOLEAN }, n INTEGER }".into()], vec!["Mid"]);
             push("parameterized", format!("parameterized|names={pool}|form=reference-arg"), vec![p1.clone(), "Tgt ::= INTEGER (0..7)".into(), format!("Mid ::= {pool} {{ Tgt }}")], vec!["Tgt ::= INTEGER (0..7)".into(), "Mid ::= SEQUENCE { v Tgt, n INTEGER }".into()], vec!["Mid"]);
+            // X.683 8.3: a dummy reference hides a definition of the same name
+            let shadow = format!("{pool} {{ INTEGER:max }} ::= INTEGER (0..max)");
+            push("parameterized", format!("parameterized|names={pool}|form=dummy-hides-module-value"), vec!["max INTEGER ::= 99".into(), shadow.clone(), format!("Mid ::= {pool} {{ 5 }}")], vec!["max INTEGER ::= 99".into(), "Mid ::= INTEGER (0..5)".into()], vec!["Mid"]);
+            let shadow_t = format!("{pool} {{ Tgt }} ::= SEQUENCE {{ v Tgt }}");
+            push("parameterized", format!("parameterized|names={pool}|form=dummy-hides-module-type"), vec!["Tgt ::= INTEGER (0..7)".into(), shadow_t.clone(), format!("Mid ::= {pool} {{ BOOLEAN }}")], vec!["Tgt ::= INTEGER (0..7)".into(), "Mid ::= SEQUENCE { v BOOLEAN }".into()], vec!["Mid"]);
             let tagged = format!("{pool} {{ T }} ::= [APPLICATION 9] SEQUENCE {{ v T }}");
             push("parameterized", format!("parameterized|names={pool}|form=tagged-template"), vec![tagged.clone(), format!("Mid ::= {pool} {{ BOOLEAN }}")], vec!["Mid ::= [APPLICATION 9] SEQUENCE { v BOOLEAN }".into()], vec!["Mid"]);
             let tagged_ref = format!("{pool} {{ T }} ::= [3] T");
